@@ -30,8 +30,14 @@ class FakeTime:
         self.now = 1000.0
         self.sleeps = []
         self.park = None  # (event_reached, event_go) to park a sleeping thread
+        self.park_time = None  # the same for the next thread that reads the clock
 
     def time(self):
+        if self.park_time is not None:
+            reached, go = self.park_time
+            self.park_time = None
+            reached.set()
+            go.wait(5)
         return self.now
 
     def sleep(self, dt):
@@ -356,6 +362,39 @@ def scen_remove_from_the_middle(equal):
     return with_fake(body)
 
 
+def scen_close_before_the_delay_sleep():
+    """the consumer has picked a delayed head and left the critical section; close() lands before it starts to wait out the
+    delay (it is parked at its first clock reading): whatever it returns then, the delayed element is never handed out before
+    its delay has elapsed"""
+    def body(ft):
+        q = DelayedQueue(D)
+        q.put("x", delay=True)
+        t0 = ft.now
+        reached, go = threading.Event(), threading.Event()
+        ft.park_time = (reached, go)
+        got, when = [], []
+
+        def cons():
+            got.append(q.get())
+            when.append(ft.now)
+        t = threading.Thread(target=cons, name="consumer")
+        t.start()
+        if not reached.wait(2):
+            go.set()
+            t.join(1)
+            return []      # get() does not read the clock after picking the head: nothing to interleave here
+        q.close()
+        go.set()
+        t.join(3)
+        out = []
+        if t.is_alive():
+            out.append("get() did not return within 3 s after close() landed between its head peek and its delay sleep")
+        elif got and got[0] == "x" and when[0] - t0 < D:
+            out.append(f"close() landed between the consumer's head peek and its delay sleep: the delayed element was handed out {when[0] - t0:.2f}s after it was put, before its delay of {D}s had elapsed")
+        return out
+    return with_fake(body)
+
+
 def scen_close_unblocks():
     q = DelayedQueue(0.1)
     got = []
@@ -378,7 +417,7 @@ SCEN = {"remove-head-nodelay": lambda: scen_remove_head_before_pop(False), "remo
         "get-during-remove-scan": scen_get_during_remove_scan, "second-delayed-not-early": scen_second_delayed_not_early, "close-unblocks": scen_close_unblocks,
         "remove-head-nodelay-equal-elements": lambda: scen_remove_head_before_pop(False, True), "remove-head-delayed-equal-elements": lambda: scen_remove_head_before_pop(True, True),
         "second-delayed-not-early-equal-elements": lambda: scen_second_delayed_not_early(True), "woken-then-removed": scen_woken_then_removed, "closer-held-after-its-section": scen_closer_held_after_its_section,
-        "remove-from-the-middle": lambda: scen_remove_from_the_middle(False), "remove-from-the-middle-equal-elements": lambda: scen_remove_from_the_middle(True)}
+        "close-before-the-delay-sleep": scen_close_before_the_delay_sleep, "remove-from-the-middle": lambda: scen_remove_from_the_middle(False), "remove-from-the-middle-equal-elements": lambda: scen_remove_from_the_middle(True)}
 
 
 def main():
